@@ -36,6 +36,7 @@ static A: Watch = Watch;
 // ---- ledger -----------------------------------------------------------------------------------
 #[derive(Default)]
 struct Ledger {
+    dropped: std::collections::BTreeSet<(bool, u32)>,
     script: Vec<String>,
     call: usize,
     in_conv: Option<usize>,
@@ -76,13 +77,21 @@ trait Elem: Sized {
 macro_rules! elem {
     ($name:ident, $kind:expr, $pay:ty, $mk:expr, $($attr:tt)*) => {
         $($attr)*
-        struct $name { id: u32, ver: u32, #[allow(dead_code)] pay: $pay }
+        struct $name { id: u32, ver: u32, #[allow(dead_code)] pay: std::mem::ManuallyDrop<$pay> }
         impl Elem for $name {
-            fn make(id: u32) -> Self { $name { id, ver: 0, pay: $mk } }
+            fn make(id: u32) -> Self { $name { id, ver: 0, pay: std::mem::ManuallyDrop::new($mk) } }
             fn label(&self) -> String { if $kind == "T" { format!("T{}", self.id) } else { format!("U{}.{}", self.id, self.ver) } }
             fn touch(&mut self) { self.ver += 1; }
         }
-        impl Drop for $name { fn drop(&mut self) { log_drop(self.label()); } }
+        // the payload is released only at the first drop of a given element identity: a second drop of the same element (a stale
+        // bitwise copy) is logged like any drop -- the oracle sees it -- without corrupting the allocator of the harness process
+        impl Drop for $name {
+            fn drop(&mut self) {
+                let first = L.with(|l| l.borrow_mut().dropped.insert(($kind == "T", self.id)));
+                log_drop(self.label());
+                if first { unsafe { std::mem::ManuallyDrop::drop(&mut self.pay); } }
+            }
+        }
     };
 }
 elem!(TPlain, "T", (), (), #[repr(C)]);
@@ -140,6 +149,9 @@ fn run_script<T: Elem, U: Elem>(n: usize, script: &[String]) -> String {
                 "t" => { if let Some(p) = prev { p.touch(); } drop(t); Ok(VecElementConversionResult::Converted(U::make(100000 + k as u32))) }
                 "r" => { if let Some(p) = prev { *p = U::make(200000 + k as u32); } drop(t); Ok(VecElementConversionResult::Converted(U::make(100000 + k as u32))) }
                 "a" => { drop(t); Ok(VecElementConversionResult::Abandonned) }
+                // the previous output is modified (touched / replaced) by a call that abandons its own input
+                "ta" => { if let Some(p) = prev { p.touch(); } drop(t); Ok(VecElementConversionResult::Abandonned) }
+                "ra" => { if let Some(p) = prev { *p = U::make(200000 + k as u32); } drop(t); Ok(VecElementConversionResult::Abandonned) }
                 "e" => { drop(t); Err(ErrVal(300000 + k)) }
                 "p1" => { std::panic::panic_any(Payload(400000 + k)) }
                 "p2" => { drop(t); std::panic::panic_any(Payload(400000 + k)) }
@@ -214,7 +226,7 @@ fn run_zst(n: usize, script: &[String]) -> (String, String) {
             drop(t);
             match code.as_str() {
                 "c" | "t" | "r" => Ok(VecElementConversionResult::Converted(UZ)),
-                "a" => Ok(VecElementConversionResult::Abandonned),
+                "a" | "ta" | "ra" => Ok(VecElementConversionResult::Abandonned),
                 "e" => Err(ErrVal(300000 + k)),
                 _ => std::panic::panic_any(Payload(400000 + k)),
             }
@@ -228,7 +240,7 @@ fn run_zst(n: usize, script: &[String]) -> (String, String) {
     for (k, c) in script.iter().enumerate().take(n) {
         pcalls = k + 1;
         pprevs.push(if produced > 0 { 's' } else { 'n' });
-        match c.as_str() { "c" | "t" | "r" => produced += 1, "a" => {}, "e" => { pk = "err"; break; } _ => { pk = "panic"; break; } }
+        match c.as_str() { "c" | "t" | "r" => produced += 1, "a" | "ta" | "ra" => {}, "e" => { pk = "err"; break; } _ => { pk = "panic"; break; } }
     }
     if n == 0 { pcalls = 0; }
     let plen = if pk == "done" { produced } else { 0 };
@@ -251,7 +263,7 @@ fn run_pod(n: usize, script: &[String]) -> (String, String) {
             let (k, code) = L.with(|l| { let mut l = l.borrow_mut(); let k = l.call; l.call += 1; (k, l.script.get(k).cloned().unwrap_or("c".into())) });
             match code.as_str() {
                 "c" | "t" | "r" => Ok(VecElementConversionResult::Converted(UGlue { _id: t.id, _ver: t.ver })),
-                "a" => Ok(VecElementConversionResult::Abandonned),
+                "a" | "ta" | "ra" => Ok(VecElementConversionResult::Abandonned),
                 "e" => Err(ErrVal(300000 + k)),
                 _ => std::panic::panic_any(Payload(400000 + k)),
             }
@@ -262,7 +274,7 @@ fn run_pod(n: usize, script: &[String]) -> (String, String) {
     let mut produced = 0; let mut pk = "done"; let mut pcalls = 0;
     for (k, c) in script.iter().enumerate().take(n) {
         pcalls = k + 1;
-        match c.as_str() { "c" | "t" | "r" => produced += 1, "a" => {}, "e" => { pk = "err"; break; } _ => { pk = "panic"; break; } }
+        match c.as_str() { "c" | "t" | "r" => produced += 1, "a" | "ta" | "ra" => {}, "e" => { pk = "err"; break; } _ => { pk = "panic"; break; } }
     }
     if n == 0 { pcalls = 0; }
     let plen = if pk == "done" { produced } else { 0 };
@@ -324,7 +336,7 @@ fn refusals(n: usize, zst: &mut dyn Write) {
     }
 }
 
-const CODES: [&str; 8] = ["c", "t", "r", "a", "e", "p1", "p2", "p3"];
+const CODES: [&str; 10] = ["c", "t", "r", "a", "ta", "ra", "e", "p1", "p2", "p3"];
 
 fn dispatch(pair: &str, n: usize, script: &[String]) -> (String, String) {
     // returns (request line, implementation answer); a `-w` suffix drives the infallible wrapper `convert_vec_in_place`
@@ -372,7 +384,17 @@ fn main() {
     let mk = |n: &str| std::io::BufWriter::new(std::fs::File::create(format!("{}/{}", outdir, n)).unwrap());
     let (mut req, mut imp, mut zst) = (mk("req.txt"), mk("impl.txt"), mk("zst.txt"));
     let mut nscripts = 0usize;
+    // the script about to run is noted first (unbuffered): if the process dies on it (abort, double free, segfault) the check
+    // can still name the input
+    let mut cur = std::fs::File::create(format!("{}/cur.txt", outdir)).unwrap();
     let mut emit = |pair: &str, n: usize, script: &[String], req: &mut dyn Write, imp: &mut dyn Write| {
+        {
+            use std::io::Seek;
+            let line = format!("{} {} {}\n", pair, n, script.join(" "));
+            let _ = cur.rewind();
+            let _ = cur.set_len(0);
+            let _ = cur.write_all(line.as_bytes());
+        }
         let (r, a) = dispatch(pair, n, script);
         writeln!(req, "{}", r).unwrap();
         writeln!(imp, "{}", a).unwrap();
@@ -380,10 +402,10 @@ fn main() {
     if let Some(maxlen) = mode.strip_prefix("exhaustive:") {
         let maxlen: usize = maxlen.parse().unwrap();
         for n in 0..=maxlen {
-            let total = 8usize.pow(n as u32);
+            let total = CODES.len().pow(n as u32);
             for idx in 0..total {
                 let mut x = idx;
-                let script: Vec<String> = (0..n).map(|_| { let c = CODES[x % 8]; x /= 8; c.to_string() }).collect();
+                let script: Vec<String> = (0..n).map(|_| { let c = CODES[x % CODES.len()]; x /= CODES.len(); c.to_string() }).collect();
                 emit(if idx % 5 == 1 { "plain-w" } else { "plain" }, n, &script, &mut req, &mut imp);
                 nscripts += 1;
                 if idx % 7 == 0 { emit(if idx % 14 == 0 { "heap-w" } else { "heap" }, n, &script, &mut req, &mut imp); nscripts += 1; }
@@ -395,7 +417,7 @@ fn main() {
                     let (a, b) = run_pod(n, &script);
                     writeln!(zst, "pod {} | {} | {}", script.join(" "), a, b).unwrap();
                 }
-                if (idx % 64 == 5 || n <= 2) && script.iter().take(n).all(|c| matches!(c.as_str(), "c" | "t" | "r" | "a" | "e")) {
+                if (idx % 64 == 5 || n <= 2) && script.iter().take(n).all(|c| matches!(c.as_str(), "c" | "t" | "r" | "a" | "ta" | "ra" | "e")) {
                     let (a, b) = run_pod_unwinding(n, &script);
                     writeln!(zst, "pod-while-unwinding {} | {} | {}", script.join(" "), a, b).unwrap();
                 }
@@ -447,7 +469,7 @@ fn main() {
             let failing = rng.chance(1, 2);
             let fail_at = rng.below(n.max(1));
             let script: Vec<String> = (0..n).map(|k| {
-                if failing && k == fail_at { CODES[4 + rng.below(4)].to_string() } else { CODES[rng.below(4)].to_string() }
+                if failing && k == fail_at { CODES[6 + rng.below(4)].to_string() } else { CODES[rng.below(6)].to_string() }
             }).collect();
             let pair = if huge { "plain" } else if bigmany { "big" } else { match i % 10 { 0 | 1 | 3 => "plain", 2 => "plain-w", 4 | 6 => "heap", 5 => "heap-w", 7 => "over", 8 => if n <= 40 { "big" } else { "plain" }, _ => *rng.pick(&["ne-size", "ne-align", "ne-both", "ne-heap", "ne-align-down", "ne-align-down2", "ne-size-down"]) } };
             emit(pair, n, &script, &mut req, &mut imp);
@@ -460,7 +482,7 @@ fn main() {
                 let (a, b) = run_pod(n, &script);
                 writeln!(zst, "pod {} | {} | {}", script.join(" "), a, b).unwrap();
             }
-            if i % 8 == 1 && script.iter().take(n).all(|c| matches!(c.as_str(), "c" | "t" | "r" | "a" | "e")) {
+            if i % 8 == 1 && script.iter().take(n).all(|c| matches!(c.as_str(), "c" | "t" | "r" | "a" | "ta" | "ra" | "e")) {
                 let (a, b) = run_pod_unwinding(n, &script);
                 writeln!(zst, "pod-while-unwinding {} | {} | {}", script.join(" "), a, b).unwrap();
             }
